@@ -245,7 +245,7 @@ var topNames = []string{"ma", "mb", "mc", "md", "util", "Mod_9", "_u", "mod"}
 var nestedNames = []string{"pa/mod", "pb/mod", "pa/sub/mod", "pa/sub/leaf", "pb/x1", "pa/x1", "pa/mb", "pb/sub/leaf", "ma/inner", "pc/pd/pe/deep"}
 var unicodeNames = []string{"é/ünï", "é/mod", "ñ", "日本/モジュール", "pa/é"}
 
-const nCycleTrees = 6
+const nCycleTrees = 9
 
 // genTree is a pure function of (base, k): both the driver (which materialises the trees of the
 // LocalImporter pool on disk) and the workers regenerate tree k from it. k >= nTrees are the fixed
@@ -400,7 +400,20 @@ func cycleTree(v int) *Tree {
 			if !strings.Contains(stmts[n], "$H") {
 				handle = leaf
 			}
-			t.Mods[e[0]].Deps = append(t.Mods[e[0]].Deps, Dep{Target: e[1], Stmt: stmt, Handle: handle, Spelling: "cycle"})
+			d := Dep{Target: e[1], Stmt: stmt, Handle: handle, Spelling: "cycle"}
+			if strings.Contains(stmt, "$F") {
+				// a from-import of SYMBOLS of the module (not of a module below a package)
+				var parts []string
+				d.Funcs = map[string]string{}
+				for _, fnm := range funcsBound {
+					parts = append(parts, fnm+" as "+h+"_"+fnm)
+					d.Funcs[fnm] = h + "_" + fnm
+				}
+				d.Stmt = strings.ReplaceAll(stmt, "$F", strings.Join(parts, ", "))
+				d.Handle = ""
+				d.Spelling = "cycle-symbols"
+			}
+			t.Mods[e[0]].Deps = append(t.Mods[e[0]].Deps, d)
 		}
 		return t
 	}
@@ -418,8 +431,16 @@ func cycleTree(v int) *Tree {
 	case 4:
 		return mk("cycle-tail", []string{"ma", "mb", "mc"}, [][2]int{{0, 1}, {1, 2}, {2, 1}},
 			[]string{"import mb as $H", "import mc as $H", "import mb as $H"})
-	default:
+	case 5:
 		return mk("selfcycle-nested", []string{"pa/sub/mod"}, [][2]int{{0, 0}}, []string{"from pa.sub import mod as $H"})
+	case 6:
+		return mk("cycle2-symbols", []string{"ma", "mb"}, [][2]int{{0, 1}, {1, 0}}, []string{"from mb import $F", "import ma"})
+	case 7:
+		return mk("cycle3-symbols", []string{"ma", "mb", "pa/mod"}, [][2]int{{0, 1}, {1, 2}, {2, 0}},
+			[]string{"import mb as $H", `from "pa/mod" import $F`, "from ma import $F"})
+	default:
+		return mk("cycle2-symbols-both", []string{"pa/mod", "pa/x1"}, [][2]int{{0, 1}, {1, 0}},
+			[]string{"from pa.x1 import (\n  $F,\n)", "from pa.mod import $F"})
 	}
 }
 
